@@ -25,6 +25,7 @@ type Job struct {
 	ShrinkMs     int      `json:"shrink_ms"`
 	DeadlineUnix int64    `json:"deadline_unix"`
 	ReplayDir    string   `json:"replay_dir"`
+	TraceLines   int      `json:"trace_lines"`
 }
 
 // ReplayFile is the on-disk form of a violation (DESIGN.md §3.1).
@@ -190,22 +191,28 @@ func (w *Worker) handleViolations(spec RunSpec, res RunResult) {
 	for _, v := range res.Violations {
 		w.Out.VioCounts[v.Key()]++
 	}
-	// The first violation of a run is the one reported (later ones are usually consequences).
-	v := res.Violations[0]
-	key := v.Key()
-	if w.known[key] {
-		w.Out.RunsAfterKnown++
-		// a run that hits a known finding may still show an unknown one
-		found := false
-		for _, o := range res.Violations[1:] {
-			if !w.known[o.Key()] {
-				v, key, found = o, o.Key(), true
+	// The first violation that is not a known finding is the one reported (later ones are usually
+	// consequences). A known finding that is a panic ends the run as far as the oracles are
+	// concerned: in production the process would have died there, so nothing after it is judged.
+	var v Violation
+	key := ""
+	hitKnown := false
+	for _, o := range res.Violations {
+		if w.known[o.Key()] {
+			hitKnown = true
+			if o.Oracle == "no-panic" {
 				break
 			}
+			continue
 		}
-		if !found {
-			return
-		}
+		v, key = o, o.Key()
+		break
+	}
+	if hitKnown {
+		w.Out.RunsAfterKnown++
+	}
+	if key == "" {
+		return
 	}
 	if w.seen[key] {
 		return
@@ -416,7 +423,7 @@ func (w *Worker) replay() {
 	for _, v := range res.Violations {
 		w.Out.VioCounts[v.Key()]++
 	}
-	w.Out.Samples = append(w.Out.Samples, map[string]interface{}{"violations": res.Violations, "hash": res.Hash, "trace": excerpt(res.Trace, 200)})
+	w.Out.Samples = append(w.Out.Samples, map[string]interface{}{"violations": res.Violations, "hash": res.Hash, "trace": excerpt(res.Trace, w.Job.TraceLines+200)})
 	w.Out.Complete = true
 }
 
